@@ -168,6 +168,15 @@ def single_key_ties(ops, frames, memo=None):
     return r
 
 
+def has_inner_merge(sc):
+    """an INNER / CROSS natural_join is present: pandas.merge(how="inner") lists the matching pairs in an order that is not a function of
+    its arguments one could rely on (pandas 3 hash join; Model/PdPrim.v pd_merge_with); the theorems hold for every arrangement"""
+    if sc["op"] == "table":
+        return False
+    here = sc["op"] == "natural_join" and str(sc.get("jointype", "INNER")).upper() in ("INNER", "CROSS")
+    return bool(here) or has_inner_merge(sc["src"]) or ("b" in sc and has_inner_merge(sc["b"]))
+
+
 def has_const_window(sc):
     """a windowed extend with a literal first argument, e.g. (1).sum(): transcribed and tied, but outside wf_op_b (not covered by the proof)"""
     import re
@@ -186,11 +195,49 @@ def eval_real(ops, frames):
         return None, f"{type(e).__name__}: {str(e)[:160]}", ("act_on_expression" in names)
 
 
-def pcase_term(ops, frames, res, quirks, script):
+def dtype_raise(ops, frames, err):
+    """the model is untyped; classify a raise of a dtype check:
+    'merge_dtype'  pandas.merge refuses key columns of dtype object vs float64 -- arises only when an object-dtype key column (what
+                   pipes.make_frame gives a string column) holds nothing but None and a groupby has turned it into float64 NaN; with
+                   pandas' own string dtype the same pipeline runs: an artefact of the generated frames, skipped and counted;
+    'type_guess'   data_algebra's own check_columns_appear_compatible refuses a column whose values are ALL missing because
+                   guess_carried_scalar_type reports the type of the NaN placeholder: a defect (known finding / pending fix), recognised by
+                   re-running with that one function repaired;
+    None           anything else"""
+    if not err:
+        return None
+    if "You are trying to merge on" in err:
+        return "merge_dtype"
+    if "incompatible column types" in err:
+        import data_algebra.util as U
+        orig = U.guess_carried_scalar_type
+        def repaired(col):
+            try:
+                arr = col.to_numpy() if hasattr(col, "to_numpy") else col
+                if not isinstance(arr, (str, bytes)) and hasattr(arr, "__len__") and len(arr) > 0 and bool(np.all(pd.isna(arr))):
+                    return type(None)
+            except Exception:
+                pass
+            return orig(col)
+        U.guess_carried_scalar_type = repaired
+        try:
+            r2, e2, _ = eval_real(ops, frames)
+        finally:
+            U.guess_carried_scalar_type = orig
+        if r2 is not None or dtype_raise_text(e2) == "merge_dtype":
+            return "type_guess"
+    return None
+
+
+def dtype_raise_text(err):
+    return "merge_dtype" if err and "You are trying to merge on" in err else None
+
+
+def pcase_term(ops, frames, res, quirks, script, rows_as_bag=False):
     obs = "None" if res is None else "(Some %s)" % semconv.ctable(res)
     return "mkpcase (mkq %s) %s %s %s %s %s %s" % (cbool(quirks["keyed_dropna"]), semconv.cop(ops), semconv.cenv(frames), obs,
                                                    semconv.sl(list(ops.column_names)), cbool(not multi_gb(script)),
-                                                   cbool(not single_key_ties(ops, frames)))
+                                                   cbool(not rows_as_bag and not single_key_ties(ops, frames)))
 
 
 # ---- targeted shapes (the special cases of the steps that random pipelines reach rarely)
@@ -414,7 +461,7 @@ def capture_try(case, res, old, new):
     back = r2.rename(columns={new: old})
     if set(back.columns) != set(res.columns):
         return f"renaming column {old!r} to the scratch name {new!r} changes the result columns: {list(back.columns)} vs {list(res.columns)}"
-    why = pipes.frames_equiv(res, back[list(res.columns)], check_col_order=True, check_row_order=not single_key_ties(case.ops, case.frames))
+    why = pipes.frames_equiv(res, back[list(res.columns)], check_col_order=True, check_row_order=not single_key_ties(case.ops, case.frames) and not has_inner_merge(case.script))
     return None if why is None else f"renaming column {old!r} to the scratch name {new!r} changes the result: {why}"
 
 
@@ -649,7 +696,7 @@ def run_oracles(chk, case, res, err, expr_raise, info, rng):
     whys = []
     kind = (info or {}).get("kind", "random")
     if res is None:
-        if not expr_raise:
+        if not expr_raise and dtype_raise_text(err) is None:
             whys.append(("raises", f"the Pandas executor raises on a pipeline the builder accepted: {err}"))
     else:
         w = o_columns(case, res)
@@ -686,6 +733,7 @@ def sig_of(case, cause, err, info):
         sig["error"] = (err or "").split(":")[0]
         sig["max_of_empty"] = "max() iterable argument is empty" in (err or "")
         sig["root"] = case.script["op"]
+        sig["all_missing_type_guess"] = dtype_raise(case.ops, case.frames, err) == "type_guess"
     if (info or {}).get("overlap"):
         sig["keyspec"] = "overlap"
     return sig
@@ -952,9 +1000,14 @@ def run(chk):
         "window and aggregate FUNCTIONS are Sem.win_fn / agg_fn fl_pandas (tied by C27 and by the primitive cases here)",
         "row labels are not represented: every frame between steps has the default RangeIndex (C18: px_default_index)",
         "harness/props/PEXEC.py, harness/semconv.py (term conversion), harness/pipes.py, harness/execcorr.py"]
-    chk.assumptions = ["dtype compatibility checks of join / concat pass (typed generation)",
+    chk.assumptions = ["dtype compatibility checks of join / concat pass (typed generation); a raise of pandas.merge's own key-dtype check (object vs float64: "
+                       "an object-dtype string column holding only None after a groupby) is skipped and counted; a raise of data_algebra's check on an "
+                       "all-missing column is the known finding PEXEC-all-missing-column-guessed-float",
                        "a raise inside scalar-expression evaluation (e.g. if_else(...).coalesce(k) on a numpy array) is outside the transcription and is skipped",
                        "single-key sorts with tied non-null keys are compared as multisets (numpy's default argsort is not stable)",
+                       "an INNER pandas.merge lists its rows in an unspecified order (pandas 3 hash join; left-major in all but ~3% of small cases): the "
+                       "theorems quantify over every arrangement; a pipeline with an INNER / CROSS join that disagrees row for row is compared as a "
+                       "multiset, and is skipped when it also violates the theorems' premises (a later step may then depend on the row order)",
                        "set iteration order is not modelled: a project with >= 2 group columns is compared by column NAME"]
     chk.cov["rule"] = ("random pipelines (harness/pipes.py grammar, depth 1..4, 2 tables, nulls, duplicates, empty tables) + targeted shapes (joins with same / "
                        "different key names, multi-column and empty `on`, CROSS, shared non-key columns, null keys on both sides (marker-column path), a left key that is a right non-key column, empty sides; projects with null-heavy keys, no ops, constants, "
@@ -1036,6 +1089,11 @@ def run(chk):
         if res is None and expr_raise:
             chk.dist("skipped_expression_raise")
             continue
+        if res is None:
+            dr = dtype_raise(c.ops, c.frames, err)
+            if dr:                      # the transcription is untyped: dtype checks are outside it
+                chk.dist("skipped_dtype_check_raise:" + dr)
+                continue
         try:
             terms.append(pcase_term(c.ops, c.frames, res, quirks, c.script))
             tindex.append(ci)
@@ -1043,6 +1101,26 @@ def run(chk):
             chk.dist("unsupported:" + str(u).split()[0])
     multi, errors, nchk = run_multi("PEXEC_pipe", terms, ["check_pcases", "check_wf", "check_instances", "check_unguarded"])
     failing = multi["check_pcases"]
+    # an INNER merge lists its rows in an unspecified order (Model/PdPrim.v): a disagreeing case that contains one is compared again
+    # with the rows as a multiset; when its premises hold (PEXEC_refines_sem: true for EVERY arrangement) that comparison must succeed,
+    # when they do not, a later step may depend on the row order (e.g. a window without a total order) and the case says nothing
+    inner = [k for k in failing if has_inner_merge(cases[tindex[k]][0].script)]
+    if inner and not errors:
+        terms2 = []
+        for k in inner:
+            c, _ = cases[tindex[k]]
+            r0, _, _ = eval_real(c.ops, c.frames)
+            terms2.append(pcase_term(c.ops, c.frames, r0, quirks, c.script, rows_as_bag=True))
+        multi2, errors2, _ = run_multi("PEXEC_pipe_bag", terms2, ["check_pcases"])
+        errors += errors2
+        still = {inner[j] for j in multi2["check_pcases"]}
+        unguarded = set(multi["check_unguarded"])
+        for k in inner:
+            if k not in still:
+                chk.dist("inner_merge_row_order_differs_from_left_major")
+            elif k in unguarded:
+                chk.dist("inner_merge_order_dependent_case_without_premises")
+        failing = [k for k in failing if k not in inner or (k in still and k not in unguarded)]
     chk.cov["correspondence"] = {"pipeline_cases": len(terms), "checked_in_coq": nchk, "disagreements": len(failing), "errors": errors[:2],
                                  "premise_wf_op_b_false": len(multi["check_wf"]),
                                  "cases_satisfying_all_premises": nchk - len(multi["check_unguarded"]),
